@@ -196,6 +196,9 @@ def run(rep):
     # emitted exactly when the type closure follows members / arrays (C08's closure rules)
     from common import include
     include(rep, 'c08', ('C08.closure',), 'nested-struct-emitted')
+    # the section reaches the assembled output unconditionally (shared rule, lib/sections.py)
+    from sections import check_wiring
+    check_wiring(rep, 'C06.section-wiring', ['derive ( #('], 'struct-section')
 
 
 def mentions_variant(c, suffix):
